@@ -149,7 +149,7 @@ func runC11(c *fw.Ctx) {
 		c.Distinct(p.input())
 	})
 	c.Cases("programs", c.N(1500, 600000), false, func(i int, r *rng.R) {
-		p := &prog{c: c, r: r, h: &model.Heap{}}
+		p := &prog{c: c, r: r, h: &model.Heap{}, lazy: i%2 == 1}
 		guard(c, p.input, func() {
 			rootKind := spec.List
 			if r.Bool() {
